@@ -87,6 +87,10 @@ class Shard:
         self.canaries[name] = bool(fired) and self.canaries.get(name, True)
 
     def dump(self, path):
+        for modname in ("vlib.universe", "vlib.topo"):
+            for k, n in (getattr(sys.modules.get(modname), "STYLE_COUNTS", None) or {}).items():
+                if n:
+                    self.counters[k] = self.counters.get(k, 0) + n
         with open(path, "w") as f:
             json.dump(
                 {
